@@ -127,7 +127,7 @@ PROPS = {
                 'at `continue` the error is therefore not an I/O error (O-C11-term). I/O errors leave the reader position unchanged (O-C11-fr-io, O-C11-rr-io). '
                 'RollingReader::next_block is verified against the BlockRead contract over the ghost FS model: Ok(true) only for the next block of the concatenation of all tracked files, '
                 'Ok(false) only when no tracked file holds another full block, so an I/O error of open_file/read_block can neither be turned into end-of-log nor skip a file (O-BR-next-*). Directory::open is verified to return Ok only if every entry of the listing was obtained without error (O-C11-open-listing-errors) and propagates file_type() errors with `?`.',
-        kani_quick=[], kani_thorough=[],
+        kani_quick=[], kani_thorough=['E-fault'],
         trusted=[FS], not_decided=['errors inside the FS primitives open_file / create_file (assumed to be returned as Err)'],
     ),
     'C12': dict(
